@@ -12,3 +12,4 @@ CONSTANTS
  Budget = 30
  OpenFlags = {}
  Lazy = FALSE
+ TapeRep = 0
